@@ -118,7 +118,7 @@ class CachingMachine(Machine):
             if u < 0.55:
                 ops.append({"op": "eval", "p": p, "pk": kind})
             elif u < 0.9:
-                ops.append({"op": "check", "p": p, "pk": kind, "fresh": rng.random() < 0.3})
+                ops.append({"op": "check", "p": p, "pk": kind, "fresh": rng.random() < 0.3, "decoy": rng.random() < 0.3})
             else:
                 ops.append({"op": "evalnb", "p": p, "pk": kind})
         config["final"] = [self._point(rng, area, nodes, res, inside_only=True)[1] for _ in range(12)]
@@ -368,6 +368,22 @@ class CachingMachine(Machine):
             self._compare(c, p, how, val, h2, v2, "twin", RTOL * c.range)
             env.probe("twin_compared")
             if op.get("fresh"):
+                if op.get("decoy"):
+                    # an unrelated function cached with the *same* area / resolution / bounds lives and dies just before
+                    # the fresh cache is created (its memory is typically re-used): caches of different functions must not mix
+                    dspec = dict(c.cfg["func"])
+                    if "offset" in dspec:
+                        dspec["offset"] = dspec["offset"] + 7.5
+                    else:
+                        key = "terms"
+                        dspec[key] = [dict(t, c=t["c"] + 7.5) if not (t.get("axes") or any(t.get("pow", []))) else t for t in dspec[key]]
+                    fdecoy = SimFunction(c.dim, dspec)
+                    decoy = self._make_cache(c.cfg, fdecoy)
+                    self._call(decoy, p)
+                    for q in c.cfg.get("final", [])[:3]:
+                        self._call(decoy, q)
+                    del decoy, fdecoy
+                    env.probe("decoy_cache_lived_and_died")
                 ffresh = SimFunction(c.dim, c.cfg["func"])
                 fresh = self._make_cache(c.cfg, ffresh)
                 h3, v3 = self._call(fresh, p)
